@@ -36,6 +36,9 @@ type Cmd struct {
 	// how Stdin reaches the process: "" = a pipe fed at once; "file" = redirected from a regular file (`< file`);
 	// "slow" = a pipe fed in small blocks with pauses (a slow producer)
 	StdinMode string
+	// Fifos are named pipes (path -> content) created before the run and fed by a writer; crd gets the path as an argument,
+	// as with process substitution `<(...)`
+	Fifos map[string][]byte
 }
 
 var panicMarkers = [][]byte{
@@ -85,6 +88,27 @@ func Run(bin string, c Cmd) Result {
 		}()
 	default:
 		cmd.Stdin = bytes.NewReader(c.Stdin)
+	}
+	for path, content := range c.Fifos {
+		_ = os.Remove(path)
+		if err := syscall.Mkfifo(path, 0o600); err == nil {
+			go func(path string, content []byte) {
+				// opening blocks until the reader opens; if crd never opens it, the cleanup below unblocks us
+				f, err := os.OpenFile(path, os.O_WRONLY, 0)
+				if err != nil {
+					return
+				}
+				_, _ = f.Write(content)
+				f.Close()
+			}(path, content)
+			defer func(path string) {
+				// unblock a writer that is still waiting for a reader, then remove
+				if f, err := os.OpenFile(path, os.O_RDONLY|syscall.O_NONBLOCK, 0); err == nil {
+					f.Close()
+				}
+				os.Remove(path)
+			}(path)
+		}
 	}
 	var so, se bytes.Buffer
 	cmd.Stdout = &limitWriter{w: &so, n: 64 << 20}
